@@ -195,4 +195,11 @@ MUTANTS = [
     ("C15", U, "return Kernel(kernel.width, kernel.height, kernel.stride_x, kernel.stride_y, kernel.dilation_x, kernel.dilation_y)", "return Kernel(kernel.width, kernel.height, kernel.stride_x, kernel.stride_y, kernel.dilation_y, kernel.dilation_x)", 1),
     ("C16", "ethosu/vela/tflite_model_semantic.py", "        axis = op.attrs[\"axis\"]\n        axis += ofm_dim if axis < 0 else 0\n        tensors", "        axis = op.attrs[\"axis\"]\n        if axis < 0:\n            axis += ofm_dim\n        tensors", 0),
     ("C02", GO, "        _, _, ow, _ = ofm.shape\n\n        intermediate_tens", "        _, _, ow, _ = ofm.shape\n        _, oh, _, _ = ofm.shape\n\n        intermediate_tens", 0),
+    # member-for-member copy families (generic copy-paste lint)
+    ("C11", "ethosu/vela/operation.py", "        res.flops = self.flops", "        res.flops = self.version", 1),
+    ("C12", "ethosu/vela/scheduler.py", "            cpu_tensor_alignment=options.cpu_tensor_alignment,", "            cpu_tensor_alignment=options.hillclimb_max_iterations,", 1),
+    ("C18", VP, "            verbose_allocation=args.verbose_allocation,", "            verbose_allocation=args.verbose_packing,", 1),
+    ("C06", HN, "    resampling_mode.NEAREST: NpuResamplingMode.NEAREST,", "    resampling_mode.NEAREST: NpuResamplingMode.TRANSPOSE,", 1),
+    ("C06", HN, "NpuShape3D(height=out_block.height, width=out_block.width, depth=out_block.depth)", "NpuShape3D(height=out_block.width, width=out_block.width, depth=out_block.depth)", 1),
+    ("C06", HN, "NpuShape3D(height=out_block.height, width=out_block.width, depth=out_block.depth)", "NpuShape3D(width=out_block.width, height=out_block.height, depth=out_block.depth)", 0),
 ]
